@@ -22,7 +22,7 @@ def main():
         if only and only not in m["fn"] and only != m["module"]:
             continue
         importlib.import_module("contracts." + m["module"])
-        key = [k for k in FUNCS if k.endswith("::" + m["fn"]) or k.endswith("." + m["fn"])][0]
+        key = [k for k in FUNCS if (k.endswith("::" + m["fn"]) or k.endswith("." + m["fn"])) and FUNCS[k].proof][0]
         c = FUNCS[key]
         src = open(os.path.join(REPO_LIB, c.path)).read()
         if src.count(m["old"]) < 1:
